@@ -211,6 +211,89 @@ CLAIMED["C02"] = {
     "design_ref": "DESIGN.md section 5 C02",
 }
 
+CLAIMED["C04"] = {
+    "level": "exploration",
+    "text": "Parsers.tla states what every parser call must report whatever the bytes: a verdict through the documented channel (AWS_OP_ERR with "
+            "a registered error code / NULL / false) and every returned view inside the input. TLC enumerates all token-class strings of 11 "
+            "structural alphabets (449k quick / 5.1M thorough; XML <=5/6 tokens) - the state space is the input family. The driver adds token "
+            "mutations of well-formed documents, nesting/length/count limits, NULL/0 and seeded random bytes. ~0.8M (quick) / ~8.7M (thorough) "
+            "calls of 15 parsers (XML, JSON, CBOR, URI + query, percent-decoding, date-time, base64, hex, UTF-8, UUID, IPv4/6, u64) run on "
+            "exact-size heap copies under ASan with a per-input watchdog, and TLC validates every recorded call. A crash, sanitizer report or "
+            "time-out is a missing event = violation, reproduced in isolation.",
+    "note": "Memory safety is observed on the executed inputs, not decided: the technique contributes the input families and the verdict-"
+            "channel/view oracle. Reads inside the input block and intra-object overflows are invisible. Which inputs are accepted is "
+            "judged by C05, C10-C13, C19. No UBSan. Found F5 (repaired).",
+    "technique": "TLA+ input enumeration + verdict-channel/view specification (ParsersMC/Parsers.tla), TLC trace validation of real parser calls (ParsersTrace.tla), ASan/watchdog at run time",
+    "design_ref": "DESIGN.md section 5 C04",
+}
+CLAIMED["C10"] = {
+    "level": "model_checking",
+    "text": "Cbor.tla defines Enc (shortest head), an independent RFC 8949 reader DecAll, Narrow/Widen on IEEE-754 bit fields and SkipItem, plus "
+            "the decoder state machine. TLC checks round trip, skip agreement and lossless narrowing over all sequences <= 4 (thorough 5) of 19 "
+            "items, the decoder machine and 600 field-pattern doubles (cross-checked against a 76-row table of boundary doubles). ~3.2k encoder "
+            "programs (strings of length 0/23/24/255/256/300/65536 across the encoder's growth points, nesting to depth 8, tags, indefinite "
+            "containers) are run through the real encoder and decoder (peek/pop, consume whole item / single element, remaining length) and "
+            "TLC validates ~120k calls: bytes = EncAll(items), decoded = written, skip advances past exactly one item.",
+    "note": "The independent decoder is the spec; 'smallest form' follows cbor.h (integer / single / double); half floats not covered; NaN payload "
+            "and sign not compared; code covered on executed programs only. Trusted: TLC, adapter projection, ASan.",
+    "technique": "TLA+ spec (Cbor.tla) model-checked with TLC + trace validation of real encoder/decoder calls (CborTrace.tla)",
+    "design_ref": "DESIGN.md section 5 C10",
+}
+CLAIMED["C11"] = {
+    "level": "model_checking",
+    "text": "JsonValue.tla holds value trees, an RFC 8259 parser written in TLA+ (the independent reader: escapes, surrogate pairs, numerals - never "
+            "floating point), a reference renderer and the object/array API as a state machine. TLC explores 3 slots, 2 keys, <= 4 nodes (thorough "
+            "5) and checks a parse table against Python's json module. ~2.2k executions build trees through the API or parse texts, serialise "
+            "compact and formatted, re-parse, duplicate and compare (incl. nesting depth 1000); TLC validates that Parse(text) = tree, member "
+            "order, strings byte for byte, numerals, and add/get/has/remove/index coherence.",
+    "note": "Doubles are compared as %.15g / %.17g numerals (trusted projection); the 'one part in 2^52' clause is numeric accuracy, computed in C "
+            "and only required true by the spec (outside the technique). Case-variant keys, NUL and non-finite numbers excluded. Found F10, F11 "
+            "(repaired).",
+    "technique": "TLA+ spec (JsonValue.tla incl. RFC 8259 parser) model-checked with TLC + trace validation (JsonValueTrace.tla)",
+    "design_ref": "DESIGN.md section 5 C11",
+}
+CLAIMED["C12"] = {
+    "level": "model_checking",
+    "text": "Xml.tla defines element trees, Render and Expected(tree, program) = the sequence of callback observations (depth, name, attributes, "
+            "body) + every traverse result + verdict, with the depth/name/attribute limits. XmlImpl.tla transcribes xml_parser.c. TLC checks "
+            "Impl = Expected for all trees of <= 5 elements, height <= 3 (thorough: height 4 and decorated trees), names {a, ab, b} x all "
+            "callback programs {descend, body, skip, abort} x max_depth. ~8.4k (quick) / ~66k (thorough) TLC-enumerated and driver-generated "
+            "documents x programs are parsed by the real aws_xml_parse with a scripted callback (depth 19/20/21 and user max_depth, names "
+            "254..700, 0..20 attributes, '=' in values, 3 kB text, preambles, truncations). TLC re-renders each tree and validates every "
+            "callback invocation against Expected.",
+    "note": "Dialect as in the statement; self-closing tags, entities, CDATA, attribute values with spaces not covered. Descend at a leaf exactly "
+            "at max_depth and error codes are left open. Code covered on the executed documents only. Found F6 and F12 (repaired).",
+    "technique": "TLA+ specs (Xml.tla abstract, XmlImpl.tla implementation-shaped) compared by TLC + trace validation of real traversals (XmlTrace.tla)",
+    "design_ref": "DESIGN.md section 5 C12",
+}
+CLAIMED["C13"] = {
+    "level": "model_checking",
+    "text": "Uri.tla gives, as a function of the components (scheme, user/password, plain or bracketed host, port digits, path, query items), the "
+            "views a parse of the assembled text must report, the builder's parse-back, query iteration = non-blank items in order = list form, "
+            "and Enc/Dec as closed forms on bytes. TLC checks slices/delimiters/injectivity of Text on ~14k (quick) / 307k (thorough) component "
+            "combinations, the item reading on all 821 item sequences, and Dec(Enc(x))=x, alphabet and scanner equivalence on all byte strings "
+            "up to length 3 (4) over 9 symbols. ~70k calls of aws_uri_init_parse / init_from_builder_options / query iterators / encoders / "
+            "decoder on TLC-enumerated and seeded random inputs are validated event by event (bytes, inside-own-copy, port incl. > 2^32-1 "
+            "refused, output starting lengths 0/1/7).",
+    "note": "Exhaustive on the model only; scheme-less ':/' texts (ambiguous grammar) and hollow URIs left open; which occurrence of equal bytes "
+            "a view points at is not compared. Trusted: TLC, adapter projection (ptr - uri_str.buffer), ASan. Found F9 (repaired).",
+    "technique": "TLA+ spec (Uri.tla) model-checked with TLC + trace validation of real calls (UriTrace.tla)",
+    "design_ref": "DESIGN.md section 5 C13",
+}
+CLAIMED["C19"] = {
+    "level": "model_checking",
+    "text": "DateTime.tla defines the proleptic Gregorian calendar arithmetically, the six output formats, the rendering of foreign date-times "
+            "(designators, offsets, fractions) and the instant they denote. TLC checks on every day of ~60 years (quick) / of 1970-9999 (thorough, "
+            "3.0M states) that the conversions are inverse, in range, agree with leap rule and month lengths day after day, and that offsets "
+            "invert. All 12.4k TLC-chosen month boundaries, leap days and extremes plus random instants are formatted and parsed back (explicit "
+            "format and auto-detect) by the real library under TZ=UTC and ~470k calls are validated, including every accessor and epoch view.",
+    "note": "Local time beyond TZ=UTC, two-digit years, weekday-less RFC 822 and nanoseconds past 2554 not covered. Mixed-radix projection in the "
+            "adapter is trusted. Known finding F13 (RFC 822 date-only text not parseable; pinned by the repository's own tests) is listed in "
+            "known_findings.txt: the check prints one KNOWN-FINDING line and exits 0.",
+    "technique": "TLA+ spec (DateTime.tla) model-checked with TLC + trace validation (DateTimeTrace.tla)",
+    "design_ref": "DESIGN.md section 5 C19",
+}
+
 NOT_YET = "check not built yet (work in progress in this session; see DESIGN.md section 8 build order)"
 NOT_APPLICABLE = {}
 ALL = ["C%02d" % i for i in range(1, 21)]
